@@ -1,6 +1,6 @@
 (* depth driver (C06): reads the depth harness lines
      <case>\t<impl result>\ttoks=<i,i,...>
-   and prints  <case>\tB=<..> C=<same|..> D=<ok:[r.v;...]|untypable|-> A=<..> AB=<..>\t-
+   and prints  <case>\tB=<..> C=<same|..> D=<ok:[r.v;...]|untypable|-> A=<..> AB=<..> G=<finding classes of the tree>\t-
      B: the worklist model's build (harness format)     C: tree compiler vs B
      D: infer_depths on the model's program: per instruction r.v or _ (unreachable)
      A / AB: the observed run on Simple / Basic replayed on the abstract depth machine:
@@ -151,6 +151,18 @@ let () =
                | Err cc, _ -> show_err cc
                | Panic _, _ -> "PANIC"
                | OutOfFuel, _ -> "HANG") in
+            let tags =
+              (match nodes with
+               | [] -> "empty_program"
+               | _ ->
+                 (match tree_of nodes root with
+                  | None -> "notree"
+                  | Some t ->
+                    String.concat "+" (List.filter_map (fun (f, name) -> if f t then Some name else None)
+                      [ (has_chain_no_else, "chain_no_else"); (has_empty_value, "empty_group");
+                        (has_reapply_pending, "reapply_pending"); (has_chain_early_else, "chain_early_else");
+                        (has_terminator, "terminator") ]))) in
+            let tags = if tags = "" then "none" else tags in
             (match b with
              | Err e -> Printf.printf "%s\tB=%s C=%s D=- A=- AB=-\t-\n" case (show_err e) cs
              | Panic _ -> Printf.printf "%s\tB=PANIC C=%s D=- A=- AB=-\t-\n" case cs
@@ -179,5 +191,5 @@ let () =
                             | None -> "-"
                             | Some xs -> (match parse_run xs with None -> "-" | Some (e, tr) -> replay p dm e tr false))
                          | Some xs -> (match parse_run xs with None -> "-" | Some (e, tr) -> replay p dm e tr false)) in
-               Printf.printf "%s\tB=%s C=%s D=%s A=%s AB=%s\t-\n" case (show_code entry s.instrs s.jumps s.meta) cs ds a ab)))
+               Printf.printf "%s\tB=%s C=%s D=%s A=%s AB=%s G=%s\t-\n" case (show_code entry s.instrs s.jumps s.meta) cs ds a ab tags)))
     | _ -> failwith ("bad line " ^ line))
